@@ -171,7 +171,9 @@ theorem grammar_names {σ : Schema} {ts ts' : List Token} (ht : TsOk PIdent ts)
   split at h
   · cases h
   · rename_i pkg ts1 h1
-    exact parseDefs_names _ _ _ _ _ (hp.ok_of h1) (by intro n hn; simp [Schema.defNames] at hn) h
+    split at h
+    · cases h; intro n hn; simp [Schema.defNames] at hn
+    · exact parseDefs_names _ _ _ _ _ (hp.ok_of h1) (by intro n hn; simp [Schema.defNames] at hn) h
 
 theorem SameNames.defNames {σ σ' : Schema} (h : SameNames σ σ') : σ'.defNames = σ.defNames := by
   simp [Schema.defNames, h.1, h.2.1]
@@ -423,7 +425,9 @@ theorem grammar_noEmpty {σ : Schema} {ts ts' : List Token} (ht : TsOk PIdent ts
   split at h
   · cases h
   · rename_i pkg ts1 h1
-    exact parseDefs_noEmpty _ _ _ _ _ (hp.ok_of h1) (by intro ty hty; simp [Schema.allTypes] at hty) h
+    split at h
+    · cases h; intro ty hty; simp [Schema.allTypes] at hty
+    · exact parseDefs_noEmpty _ _ _ _ _ (hp.ok_of h1) (by intro ty hty; simp [Schema.allTypes] at hty) h
 
 /-- `idl.Parse` never panics (and the model's traversal fuel is never exhausted). -/
 theorem parse_never_panics (t : List Char) (site : PanicSite) : parse t ≠ .panic site :=
